@@ -56,11 +56,15 @@ func (r *RMRemoting) BranchRegister(param BranchRegisterParam) (int64, error) {
 		ApplicationData: []byte(param.ApplicationData),
 	}
 	resp, err := getty.GetGettyRemotingClient().SendSyncRequest(request)
-	if err != nil || resp == nil {
-		log.Errorf("BranchRegister error: %v, res %v", err.Error(), resp)
+	if err != nil {
+		log.Errorf("BranchRegister error: %v, res %v", err, resp)
 		return 0, err
 	}
-	branchResp := resp.(message.BranchRegisterResponse)
+	branchResp, ok := resp.(message.BranchRegisterResponse)
+	if !ok {
+		log.Errorf("BranchRegister got an unexpected response %v", resp)
+		return 0, fmt.Errorf("branch register of xid %s got an empty or unexpected response", param.Xid)
+	}
 	if branchResp.ResultCode == message.ResultCodeFailed {
 		return 0, fmt.Errorf("Response %s", branchResp.Msg)
 	}
